@@ -128,6 +128,9 @@ func checkCmd(args []string) int {
 		if *tier == "thorough" && r.Thorough != nil {
 			argsets = r.Thorough
 		}
+		if *tier != "thorough" && r.Quick == nil && r.Thorough != nil {
+			continue // a run registered for the thorough tier only
+		}
 		if argsets == nil {
 			argsets = [][]int64{nil}
 		}
